@@ -1,8 +1,8 @@
 (* Extraction of the executable spinlock semantics, monitor and explorer.
    Directives: those of ExtrOcamlBasic only. *)
 From Coq Require Import Extraction ExtrOcamlBasic NArith List.
-From PV Require Import Spin.Lang Spin.Reviewed Spin.Sem Spin.RaceSem Spin.Explore Spin.Registry Gen.SpinGen.
+From PV Require Import Spin.Lang Spin.Reviewed Spin.Sem Spin.RaceSem Spin.Explore Spin.Registry Gen.SpinGen Spin.MixLang Spin.MixSem Gen.MixinsGen.
 Extraction Language OCaml.
 Extraction "../ocaml/gen/spin_model.ml"
   reviewed_prog SpinGen.gen_prog minit mstep_ev adv wb_ok holders explore judge_run
-  reg_init reg_step.
+  reg_init reg_step reviewed_mixins gen_mixins mexplore frun finit.
